@@ -29,7 +29,7 @@ def generate(tier, seed):
     cases = []
     for p in PATTERNS:
         cases.append({"kind": "family", "pattern": list(p), "seed": "%d:%s" % (seed, p), "cost": 3})
-    nrand, per = (32, 12500) if tier == "quick" else (64, 160000)
+    nrand, per = (32, 12500) if tier == "quick" else (256, 400000)
     for k in range(nrand):
         cases.append({"kind": "random", "n": per, "seed": "%d:rand:%d" % (seed, k), "cost": per / 2000})
     npipe = 16 if tier == "quick" else 160
